@@ -236,7 +236,10 @@ class LCDDocFilter(DocumentFilter):
           region.get_begin() if region.get_begin() is not None else 0,
           region.get_end(),
           writing_mode,
-          new_display_align
+          new_display_align,
+          # regions that differ in a style that is preserved are not similar: content inherits it
+          tuple(region.get_style(prop) for prop in (StyleProperties.TextAlign, StyleProperties.Color, StyleProperties.BackgroundColor)
+                if prop in supported_styles)
         )
 
       retained_region = retained_regions.get(fingerprint)
